@@ -9,7 +9,7 @@ gleam.toml (nobody writes to it), opens src/a.gleam and asks for its syntax tree
 before the repair the package loader reads the manifest with a blocking open(2) on the main loop:
 the request is never answered although the process stays alive. Exit 1 = no answer, 0 = answered.
 """
-import json, os, select, subprocess, sys, tempfile, time
+import json, os, select, shutil, subprocess, sys, tempfile, time
 
 def frame(m):
     b = json.dumps(m).encode()
@@ -57,6 +57,7 @@ def main():
     alive = p.poll() is None
     print(f"syntax tree request answered: {1 in answered}; process alive: {alive}")
     p.kill()
+    shutil.rmtree(root, ignore_errors=True)
     sys.exit(0 if 1 in answered else 1)
 
 main()
